@@ -20,7 +20,7 @@ def make_sub(tmpdir, d, absence, how, unit_min, tag, post_insert=None):
           "teams": [{"name": "TM0", "targets": [0], "workers": [{"name": "SW0", "skills": {"S0": 1.0}, "cost": 1.0}]}]}
     m = S.build(sp)
     if how == "success":
-        m.project.simulate(max_time=50, absence_time_list=list(absence))
+        m.project.simulate(max_time=d + len(absence) + 20, absence_time_list=list(absence))
     elif how == "failure":
         m.project.simulate(max_time=max(0, d - 1), absence_time_list=list(absence))
     if post_insert:
@@ -299,6 +299,12 @@ def items(tier):
                     out.append((d, (1,), "success", remove, us, up, pos, None))
             for pos in ("after-pred", "before-succ", "mixed-inputs"):
                 out.append((d, (), "success", True, us, up, pos, None, False, None, "failed-backward"))
+        if d == durs[-1]:
+            for dl in (12, 25, 37):  # long sub-projects with a long calendar
+                for ab in ((), (1, 2, 3, 10, 11, 20, 21, 22, 23, 30), tuple(range(0, 40, 3))):
+                    for remove in (True, False):
+                        for us, up in ((1, 1), (3, 2), (2, 5)):
+                            out.append((dl, ab, "success", remove, us, up, "after-pred", None))
         for how in ("failure", "never"):
             for remove in (True, False):
                 out.append((d, (), how, remove, 1, 1, "alone", None))
